@@ -118,6 +118,20 @@ def cases_of(shard, tier):
                     yield ("cyc", n, mask, "t" * n, "str", True, None, (i, j))
 
 
+def known_class(n, mask, kinds):
+    """narrow input class of the recorded finding: a chain of >= 3 non-task list nodes (each with > 1 dependency, each depending on
+    the previous one) together with a literal node that has >= 2 dependents"""
+    deps = deps_of(n, mask)
+    big = [i for i in range(n) if kinds[i] == "l" and len(deps[i]) > 1]
+    chain = {}
+    for i in big:
+        chain[i] = 1 + max([chain[j] for j in deps[i] if j in chain] or [0])
+    shared_lit = any(kinds[i] == "d" and sum(1 for k in range(n) if i in deps[k]) >= 2 for i in range(n))
+    if chain and max(chain.values()) >= 3 and shared_lit:
+        return ":list-chain>=3+shared-literal"
+    return ""
+
+
 def run_case(case, ctx):
     from dask.order import order
 
@@ -139,7 +153,7 @@ def run_case(case, ctx):
             ctx.violation(f"cyclic-graph:wrong-error:{type(exc).__name__}", case, repr(exc)[:300])
         return
     if exc is not None:
-        ctx.violation(f"order-raises:{type(exc).__name__}", case, repr(exc)[:300])
+        ctx.violation(f"order-raises:{type(exc).__name__}{known_class(n, mask, kinds)}", case, repr(exc)[:300])
         return
     if set(res) != set(dsk):
         ctx.violation("wrong-key-set", case, f"result keys {sorted(map(repr, res))} graph keys {sorted(map(repr, dsk))}")
